@@ -7,6 +7,110 @@ C11 — events/broadcaster.  Property theorems about the LTS `Kit.Broadcaster` (
 set_option linter.unusedSimpArgs false
 namespace Kit.Broadcaster
 
+/-! ### Safety: every reachable state, every interleaving, any number of callers -/
+
+/-- A run used for the non-vacuity examples: two subscribers, three Broadcasts from concurrently
+waiting callers (the lock is won out of call order), the first subscriber has received two values
+and holds the third in its buffer, the second was cancelled and its forwarder has left. -/
+def sampleLabels : List Label :=
+  [.subCall, .subCall, .subAcquire 1, .subAcquire 0, .subReturn 0, .subReturn 1,
+   .bcCall 7, .bcCall 8, .bcAcquire 1, .bcPush, .bcPush, .bcFinish, .bcReturn 1,
+   .bcCall 9, .bcAcquire 0, .bcPush, .fwdTake 0, .fwdDeliver 0, .cancel 1, .fwdExitCtx 1,
+   .fwdCloseExit 1, .bcSkipExit, .bcFinish, .bcAcquire 0, .bcPush, .fwdTake 0, .fwdDeliver 0]
+
+def sampleState : State := (runLabels .fixed init sampleLabels).getD init
+
+theorem sample_run : runLabels .fixed init sampleLabels = some sampleState := by decide
+
+theorem sample_reach : Reach .fixed sampleState := reach_of_run _ _ _ Reach.init sample_run
+
+/-- `suffix_inv`: for a subscriber no Broadcast has skipped, what it received, the value in its
+forwarder's hand, its buffer and — while a fan-out has not reached it yet — the value being fanned
+out are exactly the log from the moment it joined. -/
+theorem suffix_inv {v : Variant} {s : State} (hr : Reach v s) {i : Nat} {u : Sub}
+    (hi : s.subs[i]? = some u) (hm : u.missed = false) :
+    u.delivered ++ u.hand.toList ++ u.buf ++ pend s i = s.log.drop u.joinedAt :=
+  ((wf_reach s hr).subs i u hi).suffix hm
+
+example : ∃ (i : Nat) (u : Sub), sampleState.subs[i]? = some u ∧ u.missed = false ∧ u.delivered.length = 2 ∧
+    u.buf.length = 1 ∧ pend sampleState i = [] ∧ sampleState.log.length = 3 ∧
+    sampleState.bc.isSome = true :=
+  ⟨0, _, rfl, by decide, by decide, by decide, by decide, by decide, by decide⟩
+
+/-- A Broadcast skips a subscriber only when that subscriber's forwarder has left (its exit
+channel is closed) or the broadcaster is closing (`closeCh` closed). -/
+theorem skipped_only_if_left_or_closing {v : Variant} {s : State} (hr : Reach v s) {i : Nat}
+    {u : Sub} (hi : s.subs[i]? = some u) (hm : u.missed = true) :
+    u.exitClosed = true ∨ s.closeCh = true :=
+  ((wf_reach s hr).subs i u hi).missedWhy hm
+
+example : ∃ (i : Nat) (u : Sub), sampleState.subs[i]? = some u ∧ u.missed = true ∧ u.exitClosed = true :=
+  ⟨1, _, rfl, by decide, by decide⟩
+
+/-- `exactly_once_common_order`.  There is one log (the order in which Broadcasts won the lock).
+(1) At most once, one common order: what any subscriber — also one that left, or one overtaken by
+`Close` — has received is, position by position, the log from the moment it joined: no duplicate,
+no gap, no reordering, nothing from before it joined.
+(2) Exactly once: as long as the subscriber's forwarder has not left and `closeCh` is open, every
+logged value since it joined is at exactly one place: received, in the forwarder's hand, in the
+buffer, or about to be pushed by the fan-out in progress. -/
+theorem exactly_once_common_order {v : Variant} {s : State} (hr : Reach v s) {i : Nat} {u : Sub}
+    (hi : s.subs[i]? = some u) :
+    u.delivered <+: s.log.drop u.joinedAt ∧
+    (∀ p e, u.delivered[p]? = some e → s.log[u.joinedAt + p]? = some e) ∧
+    (u.exitClosed = false → s.closeCh = false →
+      u.delivered ++ u.hand.toList ++ u.buf ++ pend s i = s.log.drop u.joinedAt) := by
+  have hw := (wf_reach s hr).subs i u hi
+  refine ⟨hw.delPrefix, ?_, ?_⟩
+  · intro p e hp
+    obtain ⟨t, ht⟩ := hw.delPrefix
+    have : (s.log.drop u.joinedAt)[p]? = some e := by
+      rw [← ht, List.getElem?_append_left]
+      · exact hp
+      · exact (List.getElem?_eq_some_iff.mp hp).1
+    simpa [List.getElem?_drop] using this
+  · intro he hc
+    cases hm : u.missed with
+    | false => exact hw.suffix hm
+    | true =>
+      rcases hw.missedWhy hm with h | h
+      · simp [he] at h
+      · simp [hc] at h
+
+example : ∃ (i : Nat) (u : Sub), sampleState.subs[i]? = some u ∧ u.exitClosed = false ∧
+    sampleState.closeCh = false ∧ u.delivered.map (·.val) = [8, 7] :=
+  ⟨0, _, rfl, by decide, by decide, by decide⟩
+
+/-- `nothing_after_close`: once a `Close` call has returned, no forwarder can deliver anything to
+a subscriber channel (every forwarder has terminated), now or in any later state. -/
+theorem nothing_after_close {v : Variant} {s : State} (hr : Reach v s)
+    (hc : 0 < s.closeReturned) :
+    (∀ i, step v s (.fwdDeliver i) = none) ∧ AllDone s ∧ s.closed = true := by
+  obtain ⟨hcl, hd⟩ := done_reach s hr hc
+  refine ⟨?_, hd, hcl⟩
+  intro i
+  simp only [step, fwdDeliver]
+  split
+  · next u hu =>
+    have := hd i u hu
+    simp [this]
+  · rfl
+
+/-- … and a returned `Close` stays returned: the guarantee holds in every later state. -/
+theorem closeReturned_mono {v : Variant} {s s' : State} {l : Label} (hs : step v s l = some s') :
+    s.closeReturned ≤ s'.closeReturned := by
+  cases l <;> unfold_step hs <;> (repeat' split at hs) <;> (try simp at hs) <;> (try subst hs) <;>
+    simp
+
+def closedSampleLabels : List Label :=
+  [.subCall, .subAcquire 0, .subReturn 0, .bcCall 7, .bcAcquire 0, .bcPush, .bcFinish,
+   .closeCall, .closeCas, .closeChClose, .fwdExitClose 0, .fwdCloseExit 0, .fwdRemove 0,
+   .closePass, .closeReturn]
+
+example : ∃ s, runLabels .fixed init closedSampleLabels = some s ∧ 0 < s.closeReturned ∧
+    s.subs.length = 1 :=
+  ⟨_, rfl, by decide, by decide⟩
+
 /-! ### The code as found deadlocks: `close_blocked_witness` -/
 
 /-- One stalled subscriber; 11 Broadcasts complete (10 in the buffer, 1 in the forwarder's hand);
